@@ -940,3 +940,211 @@ func vH_C15_three(a []byte, b []byte, c []byte, w1, w2, w3 int) {
 		vAssert(vTreeEq(g3, f3), "C15.3.same-tree")
 	}
 }
+
+// ---- C08 ---------------------------------------------------------------
+// A decoder written only against the public API in the documented style: peek the
+// token type, then read or skip the value with any admissible call, always resuming
+// at the offset that call reported. `validating` restricts it to validating calls.
+type vCompHandler struct {
+	validating bool
+	failed     bool
+}
+
+func (h *vCompHandler) HandleArrayValue(data []byte) (int, error) {
+	p, ok := vCompose(data, h.validating)
+	if !ok {
+		h.failed = true
+		return 0, vErrStop
+	}
+	return p, nil
+}
+
+func (h *vCompHandler) HandleObjectValue(key, data []byte) (int, error) {
+	p, ok := vCompose(data, h.validating)
+	if !ok {
+		h.failed = true
+		return 0, vErrStop
+	}
+	return p, nil
+}
+
+func vCompose(data []byte, validating bool) (int, bool) {
+	tt, tp, err := NextTokenType(data)
+	if err != nil {
+		return 0, false
+	}
+	start := tp - 1
+	d := data[start:]
+	strat := vNondetInt("strategy")
+	vAssume(strat >= 0 && strat <= 2)
+	var pp int
+	switch tt {
+	case StringType:
+		switch strat {
+		case 0:
+			_, pp, err = ReadString(d, nil)
+		case 1:
+			_, pp, err = ReadStringBytes(d, nil)
+		default:
+			if validating || vNondetBool("fast") {
+				pp, err = SkipValue(d, nil)
+			} else {
+				pp, err = SkipValueFast(d, nil)
+			}
+		}
+	case NumberType:
+		switch strat {
+		case 0:
+			_, pp, err = ReadFloat64(d)
+		case 1:
+			_, pp, err = ReadInt64(d)
+			if err != nil {
+				_, pp, err = ReadFloat64(d)
+			}
+		default:
+			pp, err = SkipValue(d, nil)
+		}
+	case TrueType, FalseType:
+		if strat == 0 {
+			_, pp, err = ReadBool(d)
+		} else {
+			pp, err = SkipValue(d, nil)
+		}
+	case NullType:
+		if strat == 0 {
+			pp, err = ReadNull(d)
+		} else {
+			pp, err = SkipValue(d, nil)
+		}
+	case ArrayStartType:
+		switch strat {
+		case 0:
+			h := &vCompHandler{validating: validating}
+			pp, err = HandleArrayValues(d, h, nil)
+		case 1:
+			pp, err = SkipValue(d, nil)
+		default:
+			if validating {
+				pp, err = SkipValue(d, nil)
+			} else {
+				pp, err = SkipValueFast(d, nil)
+			}
+		}
+	case ObjectStartType:
+		switch strat {
+		case 0:
+			h := &vCompHandler{validating: validating}
+			pp, err = HandleObjectValues(d, h, nil)
+		case 1:
+			pp, err = SkipValue(d, nil)
+		default:
+			if validating {
+				pp, err = SkipValue(d, nil)
+			} else {
+				pp, err = SkipValueFast(d, nil)
+			}
+		}
+	default:
+		return 0, false
+	}
+	if err != nil {
+		return 0, false
+	}
+	return start + pp, true
+}
+
+func vH_C08(data []byte, validating bool) {
+	end, ok := vRefSkip(data)
+	p, cok := vCompose(data, validating)
+	vReach("C08.composed")
+	if ok {
+		vReach("C08.direct-ok")
+		vAssert(cok, "C08.composition-succeeds")
+		if cok {
+			vAssert(p == end, "C08.same-final-offset")
+		}
+	} else if validating {
+		vAssert(!cok, "C08.validating-composition-fails")
+	}
+}
+
+// ---- C16 ---------------------------------------------------------------
+func vClone(b []byte) []byte {
+	c := make([]byte, len(b))
+	copy(c, b)
+	return c
+}
+
+// no function writes to its input; which selects a group of entry points
+func vH_C16_inputs(data []byte, which int) {
+	snap := vClone(data)
+	vReach("C16.inputs")
+	switch which {
+	case 0:
+		SkipValue(data, nil)
+		SkipValueFast(data, nil)
+		Valid(data, nil)
+		NextToken(data)
+		NextTokenType(data)
+		ReadNull(data)
+		ReadBool(data)
+		ReadInt64(data)
+		ReadUint64(data)
+		ReadInt32(data)
+		ReadUint32(data)
+	case 1:
+		dst := make([]byte, 0, 2)
+		ReadStringBytes(data, dst)
+		ReadString(data, &dst)
+		var s string
+		DecodeString(data, &s, nil)
+		UnescapeStringContent(data, dst)
+		StdLibCompatibleStringBytes(data, dst)
+	case 2:
+		h := &vHandler{whole: data}
+		HandleArrayValues(data, h, nil)
+		h2 := &vHandler{whole: data}
+		HandleObjectValues(data, h2, &Buffer{})
+	default:
+		var r ValueReader
+		r.ReadValue(data)
+		r.ReadValue(data)
+	}
+	vAssert(vBytesEq(data, snap), "C16.input-unchanged")
+}
+
+// returned strings and trees own their memory: clobber the input copy and every buffer
+// afterwards and compare with the value computed from the pristine input
+func vClobber(b []byte) {
+	for i := 0; i < len(b); i++ {
+		b[i] = 'X'
+	}
+}
+
+func vH_C16_owned(data []byte) {
+	vReach("C16.owned")
+	work := vClone(data)
+	buf := make([]byte, 1, 4)
+	s, _, err := ReadString(work, &buf)
+	want, _, rok := vRefReadString(data, nil)
+	var r ValueReader
+	work2 := vClone(data)
+	tree, _, terr := r.ReadValue(work2)
+	var wantTree interface{}
+	_, wf := vRefSkip(data)
+	fits := false
+	if wf {
+		wantTree, _, fits = vRefDecode(data, vSkipWS(data, 0))
+	}
+	// later changes to input and buffers
+	vClobber(work)
+	vClobber(work2)
+	vClobber(buf[:cap(buf)])
+	r.ReadValue([]byte(`["XXXXXXXX",{"XXXXXXXX":"XXXXXXXX"}]`))
+	if err == nil && rok {
+		vAssert(s == string(want), "C16.string-owns-memory")
+	}
+	if terr == nil && wf && fits {
+		vAssert(vTreeEq(tree, wantTree), "C16.tree-owns-memory")
+	}
+}
